@@ -9,7 +9,7 @@ theorem kd_derive_visa_sm_sk (mk atc : Bytes) : Gen.kd.derive_visa_sm_sk mk atc 
   unfold Gen.kd.derive_visa_sm_sk deriveVisaSmSk
   simp only [tools_xor, rep_flatten, zeros, tools_adjust, bind, Except.bind, pure, Except.pure]
   repeat (first | rfl | split)
-  all_goals simp_all
+  all_goals first | (simp_all; done) | slice_forms
 
 /-- **C04 (Visa session key) about the translated source** -/
 theorem source_derive_visa_sm_sk (mk atc : Bytes) (hmk : mk.length = 16) (ha : atc.length = 2) :
